@@ -18,11 +18,15 @@
 //   case <id> | <expr> | <leaf specs> | <events>
 //
 //   expr   := (just N) (jerr N) (jdone) (argv N) (sir) (leaf N) (jfrom N) (jvod 0|1) (iv E) (dfr E) (alc E)
-//             (then FN E) (uerr FN E) (udone N E) (md E) (dao N E) (uns E) (tag N E) (src E) (era E)
+//             (then FN E) (uerr FN E) (udone FN E) (md E) (dao N E) (uns E) (tag N E) (src E) (era E) (rtk E) (lvt E)
 //             (lv A B) (le A B) (ld A B) (seq A B) (fin A B) (wa A B) (sw A B) (any A B)
-//   FN     := add:K | thr:E | tie:C:E:K
+//   FN     := add:K | thr:E | tie:C:E:K | cst:K | ctie:C:E:K | N (= cst:N)
+//             | vcst:K | vthr:E | vtie:C:E:K     (callable returning VOID; the harness appends "then K")
 //   specs  := I=i:vN | I=i:eN | I=i:d | I=p:ign | I=p:done          (space separated)
 //   events := start | stop | cI:vN | cI:eN | cI:d                   (space separated)
+//   optional 5th field "tok": every composite node is connected through a receiver whose stop token is a
+//   COUNTING wrapper (not inplace_stop_token): the generic (non-inplace) paths of the algorithms are used and the
+//   monitor "!!cbreg=N" fires when a completion passes such a receiver while N callbacks are still registered on it.
 //
 // After the scripted events every still-pending leaf is completed with done in ascending id order
 // ("drain"), so every case ends quiescent.  Output: one line per case
@@ -47,6 +51,7 @@
 #include <unifex/let_error.hpp>
 #include <unifex/let_value.hpp>
 #include <unifex/let_value_with_stop_source.hpp>
+#include <unifex/let_value_with_stop_token.hpp>
 #include <unifex/materialize.hpp>
 #include <unifex/sequence.hpp>
 #include <unifex/config.hpp>
@@ -115,6 +120,7 @@ struct World {
   std::vector<std::string> out;         // outputs of the current event
   int rootCompletions = 0;
   bool started = false;
+  bool tok = false;                     // 5th field "tok": counting-token boundaries around composite nodes
   void emit(std::string s) { out.push_back(std::move(s)); }
 };
 //C20{
@@ -206,6 +212,71 @@ struct LeafSender {
   }
 };
 
+
+// ---------------------------------------------------------------- counting stop token + receiver boundary
+// A stop token that is NOT inplace_stop_token (so the algorithms take their generic paths) and counts the
+// callbacks currently REGISTERED through it: +1 at construction, -1 when the callback is invoked (the source
+// has dequeued it) or destroyed, whichever comes first.  C04: the count must be 0 whenever a completion signal
+// passes the receiver that handed out the token.
+struct CountTok {
+  inplace_stop_token t;
+  std::shared_ptr<int> n;
+  bool stop_requested() const noexcept { return t.stop_requested(); }
+  bool stop_possible() const noexcept { return t.stop_possible(); }
+  template <typename F>
+  struct callback_type {
+    struct Fire { callback_type* self; void operator()() noexcept { self->fire(); } };
+    F f; std::shared_ptr<int> n; bool counted;
+    inplace_stop_callback<Fire> cb;
+    template <typename F2>
+    callback_type(CountTok tok, F2&& f2) : f((F2&&)f2), n(std::move(tok.n)), counted((++*n, true)), cb(tok.t, Fire{this}) {}
+    ~callback_type() { if (counted) --*n; }
+    void fire() noexcept {
+      if (counted) { counted = false; --*n; }
+      std::move(f)();          // may destroy *this: nothing is touched afterwards
+    }
+  };
+};
+
+template <typename S>
+struct Retok {
+  template <template <typename...> class Variant, template <typename...> class Tuple>
+  using value_types = sender_value_types_t<S, Variant, Tuple>;
+  template <template <typename...> class Variant>
+  using error_types = sender_error_types_t<S, Variant>;
+  static constexpr bool sends_done = sender_traits<S>::sends_done;
+
+  World* w; S s;
+
+  template <typename R>
+  struct Rcv {
+    World* w; std::shared_ptr<int> n; R* r;
+    void check() noexcept { if (*n != 0) w->emit("!!cbreg=" + std::to_string(*n)); }
+    template <typename... Vs>
+    void set_value(Vs&&... vs) && noexcept {
+      check();
+      UNIFEX_TRY { unifex::set_value(std::move(*r), (Vs&&)vs...); }
+      UNIFEX_CATCH(...) { unifex::set_error(std::move(*r), std::current_exception()); }
+    }
+    template <typename E>
+    void set_error(E&& e) && noexcept { check(); unifex::set_error(std::move(*r), (E&&)e); }
+    void set_done() && noexcept { check(); unifex::set_done(std::move(*r)); }
+    friend CountTok tag_invoke(tag_t<get_stop_token>, const Rcv& x) noexcept { return CountTok{get_stop_token(*x.r), x.n}; }
+    friend int tag_invoke(get_tag_fn, const Rcv& x) noexcept { return get_tag(std::as_const(*x.r)); }
+  };
+  template <typename R>
+  struct Op {
+    R r; std::shared_ptr<int> n;
+    connect_result_t<S, Rcv<R>> inner;
+    Op(World* w, S&& s, R&& r0) : r(std::move(r0)), n(std::make_shared<int>(0)), inner(connect(std::move(s), Rcv<R>{w, n, &r})) {}
+    void start() noexcept { unifex::start(inner); }
+  };
+  template <typename R>
+  friend Op<remove_cvref_t<R>> tag_invoke(tag_t<connect>, Retok&& s, R&& r) {
+    return Op<remove_cvref_t<R>>{s.w, std::move(s.s), (R&&)r};
+  }
+};
+
 // ---------------------------------------------------------------- parser
 struct Node { std::string k; std::vector<std::string> args; std::vector<Node> ch; };
 
@@ -232,15 +303,26 @@ struct Parser {
 };
 
 struct Fn {
-  int kind = 0, c = 0, e = 0, k = 0;   // 0 add, 1 throw always, 2 throw if eq
-  int operator()(int x) const { if (kind == 1 || (kind == 2 && x == c)) throw Err{e}; return x + k; }
+  int kind = 0, c = 0, e = 0, k = 0;   // 0 add, 1 throw always, 2 throw if eq (else x+k), 3 const k, 4 throw if eq (else k)
+  bool isVoid = false;                 // the callable returns void; the builder appends "then k"
+  int operator()(int x) const {
+    if (kind == 1 || ((kind == 2 || kind == 4) && x == c)) throw Err{e};
+    return (kind == 3 || kind == 4) ? k : x + k;
+  }
 };
+struct VoidFn { Fn f; void operator()(int x) const { (void)f(x); } };
 static Fn parse_fn(const std::string& s) {
   Fn f; std::vector<std::string> parts; std::stringstream ss(s); std::string it;
   while (std::getline(ss, it, ':')) parts.push_back(it);
-  if (parts[0] == "add") { f.kind = 0; f.k = atoi(parts[1].c_str()); }
-  else if (parts[0] == "thr") { f.kind = 1; f.e = atoi(parts[1].c_str()); }
-  else { f.kind = 2; f.c = atoi(parts[1].c_str()); f.e = atoi(parts[2].c_str()); f.k = atoi(parts[3].c_str()); }
+  std::string h = parts[0];
+  if (h.size() > 1 && h[0] == 'v' && (h == "vcst" || h == "vthr" || h == "vtie")) { f.isVoid = true; h = h.substr(1); if (h == "tie") h = "ctie"; }
+  if (h == "add") { f.kind = 0; f.k = atoi(parts[1].c_str()); }
+  else if (h == "thr") { f.kind = 1; f.e = atoi(parts[1].c_str()); }
+  else if (h == "tie") { f.kind = 2; f.c = atoi(parts[1].c_str()); f.e = atoi(parts[2].c_str()); f.k = atoi(parts[3].c_str()); }
+  else if (h == "cst") { f.kind = 3; f.k = atoi(parts[1].c_str()); }
+  else if (h == "ctie") { f.kind = 4; f.c = atoi(parts[1].c_str()); f.e = atoi(parts[2].c_str()); f.k = atoi(parts[3].c_str()); }
+  else if (parts.size() == 1 && isdigit((unsigned char)h[0])) { f.kind = 3; f.k = atoi(h.c_str()); }
+  else throw std::runtime_error("bad fn " + s);
   return f;
 }
 
@@ -248,6 +330,15 @@ static Fn parse_fn(const std::string& s) {
 static Any build(World* w, const Node& n, int arg);
 
 static AnyVoid discard(Any a) { return AnyVoid{then(std::move(a), [](int) noexcept {})}; }
+
+template <typename S>
+static Any mk(World* w, S&& s) {
+  if (w->tok) return Any{Retok<remove_cvref_t<S>>{w, (S&&)s}};
+  return Any{(S&&)s};
+}
+
+// result of a void-returning user callable, or the child's own int value, as one int
+struct Unify { int k; template <typename... Xs> int operator()(Xs... xs) const noexcept { if constexpr (sizeof...(Xs) == 0) return k; else return (xs, ...); } };
 
 static Any build(World* w, const Node& n, int arg) {
   const std::string& k = n.k;
@@ -257,57 +348,77 @@ static Any build(World* w, const Node& n, int arg) {
   if (k == "jdone") return Any{then(just_done(), []() noexcept { return 0; })};
   if (k == "argv") return Any{just(arg + num(0))};
 #if !UNIFEX_NO_COROUTINES
-  if (k == "sir") return Any{then(stop_if_requested(), []() noexcept { return 0; })};
+  if (k == "sir") return mk(w, then(stop_if_requested(), []() noexcept { return 0; }));
 #endif
   if (k == "jfrom") { int v = num(0); return Any{just_from([v]() noexcept { return v; })}; }
   if (k == "jvod") return Any{then(just_void_or_done(num(0) != 0), []() noexcept { return 0; })};
-  if (k == "leaf") return Any{LeafSender{w, num(0)}};
+  if (k == "leaf") return mk(w, LeafSender{w, num(0)});
   if (k == "iv") {
-    return Any{then(into_variant(build(w, n.ch.at(0), arg)),
-                    [](auto&& var) noexcept { return std::get<0>(std::get<0>(var)); })};
+    return mk(w, then(into_variant(build(w, n.ch.at(0), arg)),
+                      [](auto&& var) noexcept { return std::get<0>(std::get<0>(var)); }));
   }
-  if (k == "dfr") { const Node* c = &n.ch.at(0); return Any{defer([w, c, arg]() { return build(w, *c, arg); })}; }
-  if (k == "alc") return Any{allocate(build(w, n.ch.at(0), arg))};
-  if (k == "then") { Fn f = parse_fn(n.args.at(0)); return Any{then(build(w, n.ch.at(0), arg), f)}; }
+  if (k == "dfr") { const Node* c = &n.ch.at(0); return mk(w, defer([w, c, arg]() { return build(w, *c, arg); })); }
+  if (k == "alc") return mk(w, allocate(build(w, n.ch.at(0), arg)));
+  if (k == "then") {
+    Fn f = parse_fn(n.args.at(0));
+    if (f.isVoid) return mk(w, then(then(build(w, n.ch.at(0), arg), VoidFn{f}), [f]() noexcept { return f.k; }));
+    return mk(w, then(build(w, n.ch.at(0), arg), f));
+  }
   if (k == "uerr") {
     Fn f = parse_fn(n.args.at(0));
-    return Any{upon_error(build(w, n.ch.at(0), arg), [f](std::exception_ptr e) { return f(errcode(e)); })};
+    if (f.isVoid)
+      return mk(w, then(upon_error(build(w, n.ch.at(0), arg), [f](std::exception_ptr e) { (void)f(errcode(e)); }), Unify{f.k}));
+    return mk(w, upon_error(build(w, n.ch.at(0), arg), [f](std::exception_ptr e) { return f(errcode(e)); }));
   }
-  if (k == "udone") { int v = num(0); return Any{upon_done(build(w, n.ch.at(0), arg), [v]() noexcept { return v; })}; }
-  if (k == "md") return Any{dematerialize(materialize(build(w, n.ch.at(0), arg)))};
+  if (k == "udone") {
+    Fn f = parse_fn(n.args.at(0));
+    if (f.isVoid) return mk(w, then(upon_done(build(w, n.ch.at(0), arg), [f]() { (void)f(0); }), Unify{f.k}));
+    if (f.kind == 3) { int v = f.k; return mk(w, upon_done(build(w, n.ch.at(0), arg), [v]() noexcept { return v; })); }
+    return mk(w, upon_done(build(w, n.ch.at(0), arg), [f]() { return f(0); }));
+  }
+  if (k == "md") return mk(w, dematerialize(materialize(build(w, n.ch.at(0), arg))));
   if (k == "dao") {
     int d = num(0);
-    return Any{then(done_as_optional(build(w, n.ch.at(0), arg)), [d](std::optional<int> o) noexcept { return o ? *o : d; })};
+    return mk(w, then(done_as_optional(build(w, n.ch.at(0), arg)), [d](std::optional<int> o) noexcept { return o ? *o : d; }));
   }
-  if (k == "uns") return Any{unstoppable(build(w, n.ch.at(0), arg))};
-  if (k == "tag") return Any{with_query_value(build(w, n.ch.at(0), arg), get_tag, num(0))};
+  if (k == "uns") return mk(w, unstoppable(build(w, n.ch.at(0), arg)));
+  if (k == "tag") return mk(w, with_query_value(build(w, n.ch.at(0), arg), get_tag, num(0)));
   if (k == "src") {
     const Node* c = &n.ch.at(0);
-    return Any{let_value_with_stop_source([w, c, arg](inplace_stop_source&) { return build(w, *c, arg); })};
+    return mk(w, let_value_with_stop_source([w, c, arg](inplace_stop_source&) { return build(w, *c, arg); }));
   }
   if (k == "era") return Any{build(w, n.ch.at(0), arg)};
+  // a counting-token boundary regardless of the case flag (exercises any_sender_of's stop-token adapter)
+  if (k == "rtk") return Any{Retok<Any>{w, build(w, n.ch.at(0), arg)}};
+  // let_value_with_stop_token connected to a receiver whose token is NOT inplace_stop_token (generic path: own
+  // stop source + forwarding callback on the receiver's token)
+  if (k == "lvt") {
+    const Node* c = &n.ch.at(0);
+    auto s = let_value_with_stop_token([w, c, arg](inplace_stop_token) noexcept { return build(w, *c, arg); });
+    return Any{Retok<decltype(s)>{w, std::move(s)}};
+  }
   if (k == "lv") {
     const Node* s = &n.ch.at(1);
-    return Any{let_value(build(w, n.ch.at(0), arg), [w, s](int& v) { return build(w, *s, v); })};
+    return mk(w, let_value(build(w, n.ch.at(0), arg), [w, s](int& v) { return build(w, *s, v); }));
   }
   if (k == "le") {
     const Node* s = &n.ch.at(1);
-    return Any{let_error(build(w, n.ch.at(0), arg), [w, s](std::exception_ptr e) { return build(w, *s, errcode(e)); })};
+    return mk(w, let_error(build(w, n.ch.at(0), arg), [w, s](std::exception_ptr e) { return build(w, *s, errcode(e)); }));
   }
   if (k == "ld") {
     const Node* s = &n.ch.at(1);
-    return Any{let_done(build(w, n.ch.at(0), arg), [w, s, arg]() { return build(w, *s, arg); })};
+    return mk(w, let_done(build(w, n.ch.at(0), arg), [w, s, arg]() { return build(w, *s, arg); }));
   }
-  if (k == "seq") return Any{sequence(discard(build(w, n.ch.at(0), arg)), build(w, n.ch.at(1), arg))};
-  if (k == "fin") return Any{finally(build(w, n.ch.at(0), arg), discard(build(w, n.ch.at(1), arg)))};
+  if (k == "seq") return mk(w, sequence(discard(build(w, n.ch.at(0), arg)), build(w, n.ch.at(1), arg)));
+  if (k == "fin") return mk(w, finally(build(w, n.ch.at(0), arg), discard(build(w, n.ch.at(1), arg))));
   if (k == "wa") {
-    return Any{then(when_all(build(w, n.ch.at(0), arg), build(w, n.ch.at(1), arg)),
-                    [](auto&& a, auto&& b) noexcept {
-                      return (int)(((long long)std::get<0>(std::get<0>(a)) * 1000 + std::get<0>(std::get<0>(b))) % 1000003);
-                    })};
+    return mk(w, then(when_all(build(w, n.ch.at(0), arg), build(w, n.ch.at(1), arg)),
+                      [](auto&& a, auto&& b) noexcept {
+                        return (int)(((long long)std::get<0>(std::get<0>(a)) * 1000 + std::get<0>(std::get<0>(b))) % 1000003);
+                      }));
   }
-  if (k == "any") return Any{when_any(build(w, n.ch.at(0), arg), build(w, n.ch.at(1), arg))};
-  if (k == "sw") return Any{stop_when(build(w, n.ch.at(0), arg), discard(build(w, n.ch.at(1), arg)))};
+  if (k == "any") return mk(w, when_any(build(w, n.ch.at(0), arg), build(w, n.ch.at(1), arg)));
+  if (k == "sw") return mk(w, stop_when(build(w, n.ch.at(0), arg), discard(build(w, n.ch.at(1), arg))));
   throw std::runtime_error("unknown node " + k);
 }
 
@@ -364,6 +475,7 @@ static std::string run_case(const std::string& line) {
       w.specs[i] = sp;
     }
   }
+  if (parts.size() >= 5 && trim(parts[4]) == "tok") w.tok = true;
   Parser ps(parts[1]);
   Node root = ps.parse();
   inplace_stop_source src;
